@@ -47,18 +47,18 @@ TB_COMMON = [
 ]
 
 PROPS = {
-    "C01": dict(level="proof", canaries=[(CANARY, "canary:filter-yields-before-test")], trusted_base=TB_COMMON,
+    "C01": dict(level="proof", extra=[extras.refs_validation], canaries=[(CANARY, "canary:filter-yields-before-test")], trusted_base=TB_COMMON,
                 explanation="relational proof: every yielded item (object identity) and the final outcome of each tool equal those of the reference generator, for all items/lengths (loop cut + inductive coupling invariant)"),
-    "C02": dict(level="proof", canaries=[(CANARY, "canary:max-last-of-ties")], trusted_base=TB_COMMON + ["list.sort = stable sort (uninterpreted sort_by)"],
+    "C02": dict(level="proof", extra=[extras.refs_validation], canaries=[(CANARY, "canary:max-last-of-ties")], trusted_base=TB_COMMON + ["list.sort = stable sort (uninterpreted sort_by)"],
                 explanation="relational proof of return value / exception class against the reference aggregation; mutation of arguments shows as an in-place Op event the reference never performs"),
     "C03": dict(level="proof", canaries=[(CANARY, "canary:filter-yields-before-test")], extra=[typing_pass.kind_pass],
                 trusted_base=TB_COMMON + ["isinstance(x, Awaitable/AsyncIterable) and iscoroutinefunction as A9 says", "a callable keeps its flavour between calls (A6)"],
                 explanation="(a) contracts of _core.aiter/_aiter_sync/ScopedIter/borrow/awaitify/Awaitify proved on the real code for every iterable flavour (async generator, class-based with/without aclose, sync iterable, sequence) and callable flavour (def, async def/partial of one, callable returning an awaitable), incl. the cached state of Awaitify; (b) every tool is verified against those contracts only and every user callable is invoked through awaitify and awaited at once (neutral-call / await-adjacent obligations), so tool proofs never depend on the flavour; (c) result-kind judgement for every public name"),
     "C04": dict(level="proof", canaries=[(CANARY, "canary:enumerate-leaks-source")], trusted_base=TB_COMMON,
                 explanation="release postcondition at every exit path (exhaustion, consumer close at every yield, raise/cancel at every pull/call)"),
-    "C05": dict(level="proof", canaries=[(CANARY, "canary:filter-yields-before-test")], trusted_base=TB_COMMON,
+    "C05": dict(level="proof", extra=[extras.refs_validation], canaries=[(CANARY, "canary:filter-yields-before-test")], trusted_base=TB_COMMON,
                 explanation="event-match on requests: pulls, end detections and callable invocations occur in the reference's order between any two yields"),
-    "C06": dict(level="proof", canaries=[(CANARY, "canary:filter-yields-before-test")], trusted_base=TB_COMMON,
+    "C06": dict(level="proof", extra=[extras.refs_validation], canaries=[(CANARY, "canary:filter-yields-before-test")], trusted_base=TB_COMMON,
                 explanation="a fault answered at every pull/call/op: same events up to the fault, the very same exception object propagates"),
     "C07": dict(level="proof", canaries=[(CANARY, "canary:filter-yields-before-test")],
                 trusted_base=TB_COMMON + ["specification BorrowSpec (contracts/refs/ref_asynctools.py) written from the property", "athrow/asend through the handle are forwarded by design and not part of the property's operation list",
@@ -72,7 +72,7 @@ PROPS = {
                                           "deque/list contract (append, popleft, pop(idx), identity search) of the interpreter; z3 sequence theory with cvc5 --strings-exp as second back end for queries z3 leaves unknown",
                                           "cooperative scheduling: children interleave at yields (consumer loop) and, with a lock, at the lock and inside the source"],
                 explanation="Owicki-Gries invariant over the real tee_peer/_TeePeer/Tee code: for every registered child buffer_p = hist[y_p:]; each advance yields hist[y_p]; a child ends only after the full sequence; finished/closed children are unregistered (stop buffering) and the source is closed exactly when no child is left; any interleaving of next/close operations of the children (consumer loop = cut point) and any stream length"),
-    "C10": dict(level="proof", canaries=[(CANARY, "canary:max-last-of-ties")], extra=[extras.callkey_partition],
+    "C10": dict(level="proof", canaries=[(CANARY, "canary:max-last-of-ties")], extra=[extras.callkey_partition, extras.refs_validation],
                 trusted_base=TB_COMMON + ["abstract LRU view contracts/refs/ref_lru.py = functools.lru_cache (written from Lib/functools.py, validated differentially)",
                                           "dict / OrderedDict contract of pyvc/odmodel.py (insertion order, move_to_end, popitem(last=False), lookup by key equality)",
                                           "while the cache logic is verified, CallKey.from_call is replaced by its contract `equal call patterns <=> equal keys`; that contract is checked against functools._make_key by bounded native enumeration only (labelled bounded)"],
@@ -106,7 +106,7 @@ PROPS = {
                 trusted_base=TB_COMMON + ["specification contracts/refs/ref_contextlib_spec.py written from the property; async-with semantics A2",
                                           "non-interference of concurrent calls follows from the per-call events: each call of a generator-based manager performs its own Call(genfunc) and drives only that generator object (event-match on object identity), and the decorator object is not written (only objects allocated by the call are)"],
                 explanation="a decorated call against the specification, for generator-based managers (fresh generator per call: the generator function is called once per call and only that generator is resumed/thrown into) and class-based ContextDecorator managers: enter before the body, exit after it with the body's exception (incl. BaseException/cancellation at every suspension), result/exception passed through unless suppressed"),
-    "C16": dict(level="proof", canaries=[(CANARY, "canary:filter-yields-before-test")], trusted_base=TB_COMMON + ["reference class groupby/_grouper = transcription of CPython's groupbyobject/_grouperobject (validated differentially)", "one stale group handle represents all stale handles (their behaviour depends only on not being the current group)"],
+    "C16": dict(level="proof", extra=[extras.refs_validation], canaries=[(CANARY, "canary:filter-yields-before-test")], trusted_base=TB_COMMON + ["reference class groupby/_grouper = transcription of CPython's groupbyobject/_grouperobject (validated differentially)", "one stale group handle represents all stale handles (their behaviour depends only on not being the current group)"],
                 explanation="data structure against abstract view: GroupBy/_Grouper operations vs the transcribed itertools.groupby under an arbitrary history of {advance groupby, advance current group, advance stale group}; the consumer loop is a cut point, so histories and inputs are unbounded"),
     "C19": dict(level="proof", canaries=[(CANARY, "canary:filter-yields-before-test")],
                 trusted_base=TB_COMMON + ["specification contracts/refs/ref_asynctools.py (written from the property text: which values are awaited, in which order, when)",
